@@ -376,6 +376,12 @@ def node_flag(prog: Program) -> RuleResult:
     return r
 
 
+def _iter_text(prog):
+    from .c01 import iter_text
+
+    return iter_text(prog)
+
+
 def _live_iter(prog):
     # the domain of let(T, None) is enumerated lazily: a sweep between two of its steps must not shift the list under it (a live instance
     # skipped is a solution dropped, for this evaluation and - through the domain cache - for every later one)
@@ -410,4 +416,4 @@ def run(prog: Program, tier: str) -> List[RuleResult]:
             # comparisons are the other atoms: the verdict is the operator applied to the operand values of this assignment
             guard(lambda: cmp_apply(prog)),
             # an operand flagged false is dropped by the comparator: the flag must come from this evaluation, in condition position only
-            guard(lambda: ep_operand(prog)), guard(lambda: _hv_truth(prog)), guard(lambda: _qc_path(prog)), guard(lambda: node_flag(prog)), guard(lambda: _carry1(prog)), guard(lambda: _live_iter(prog))]
+            guard(lambda: ep_operand(prog)), guard(lambda: _hv_truth(prog)), guard(lambda: _qc_path(prog)), guard(lambda: node_flag(prog)), guard(lambda: _carry1(prog)), guard(lambda: _live_iter(prog)), guard(lambda: _iter_text(prog))]
